@@ -35,6 +35,9 @@ COMPOSITION = {
     "Na+": {0: 1, 11: 1},
     "Cl-": {0: -1, 17: 1},
     "NaCl": {11: 1, 17: 1},
+    "I2": {53: 2},
+    "I-": {0: -1, 53: 1},
+    "I3-": {0: -1, 53: 3},
 }
 
 # --------------------------------------------------------------------------------------------- reactions
@@ -50,6 +53,8 @@ POOL = [
     ("agnh3", {"Ag+": 1, "NH3": 2}, {"Ag(NH3)2+": 1}, 7.2),
     # written as a dissociation: two products, one of them with an even coefficient (C08's bracketing scalar solver)
     ("agnh3d", {"Ag(NH3)2+": 1}, {"Ag+": 1, "NH3": 2}, -7.2),
+    # no cation at all: every entry of the charge row is <= 0
+    ("i3", {"I2": 1, "I-": 1}, {"I3-": 1}, 2.87),
 ]
 TAGS = [p[0] for p in POOL]
 
